@@ -172,6 +172,16 @@ class LaxBoundedSemaphore(_Semaphore):
                     self._value += 1
                     cond.notify_all()
 
+        def shrink(self):  # noqa
+            # take the slot and lower the bound in one step: a release()
+            # landing between the two was compared against the new bound
+            # and dropped, losing a slot for good.
+            with self._cond:
+                while self._value == 0:
+                    self._cond.wait()
+                self._value -= 1
+                self._initial_value -= 1
+
         def clear(self):
             while self._value < self._initial_value:
                 _Semaphore.release(self)
